@@ -36,6 +36,15 @@ fn coq_json(v: &Value) -> String {
         }
     }
 }
+/// a long flat list as `(chunk ++ chunk ++ ...)`: one list literal with tens of thousands of elements
+/// overflows coqc's stack while it is parsed
+fn coq_list_n_chunked(xs: &[u64]) -> String {
+    if xs.len() <= 400 {
+        return coq_list_n(xs);
+    }
+    let parts: Vec<String> = xs.chunks(400).map(coq_list_n).collect();
+    format!("({})", parts.join(" ++ "))
+}
 fn enc_ostr(out: &mut Vec<u64>, s: Option<&str>) {
     match s {
         None => out.push(0),
@@ -500,12 +509,17 @@ struct LoopCase {
     followup: Option<String>,
     prompt: String,
     rounds: Vec<RoundSpec>,
+    /// run through a thread (POST /threads/{id}/messages): the first request carries the compiled context
+    /// as input items (`initial_items`) instead of the prompt text
+    #[serde(default)]
+    thread: bool,
 }
 
 fn marker_args(r: &mut Rng, name: &str, tok: &str) -> String {
     match name {
         "write" => serde_json::to_string(&json!({"append": true, "content": "x\n", "path": format!("m/{tok}")})).unwrap(),
-        "bash" | "shell" => serde_json::to_string(&json!({"command": format!("echo x >> m/{tok}; echo {tok}")})).unwrap(),
+        // without `cwd` the bash tool runs in the process's directory, not in the workspace
+        "bash" | "shell" => serde_json::to_string(&json!({"command": format!("echo x >> m/{tok}; echo {tok}"), "cwd": "."})).unwrap(),
         "read" => serde_json::to_string(&json!({"path": "seed.txt"})).unwrap(),
         "ls" => serde_json::to_string(&json!({"path": "."})).unwrap(),
         "grep" => serde_json::to_string(&json!({"path": "seed.txt", "pattern": "seed"})).unwrap(),
@@ -577,7 +591,16 @@ fn gen_loop(r: &mut Rng, i: usize) -> LoopCase {
     let names: Vec<&str> = EXEC_NAMES.to_vec();
     let ch = match i % 5 {
         0 => ChoiceCase { value: json!("auto"), spec: Some(None) },
-        _ => gen_choice(r, &names),
+        _ => {
+            // mostly well-formed shapes: a schema-invalid tool_choice ends the run before the first request
+            let mut ch = gen_choice(r, &names);
+            for _ in 0..2 {
+                if ch.spec.is_none() {
+                    ch = gen_choice(r, &names);
+                }
+            }
+            ch
+        }
     };
     let followup = if r.chance(1, 3) { Some(r.pick(&["continue", "go on ✓", ""]).to_string()) } else { None };
     let dirty_case = i % 4 == 3;
@@ -611,7 +634,7 @@ fn gen_loop(r: &mut Rng, i: usize) -> LoopCase {
     if r.chance(4, 5) {
         rounds.push(RoundSpec { mode: 0, events: vec![response_id_event(r, "resp_end"), json!({"type":"response.output_text.delta","delta":"done"})], done: r.chance(3, 4), expected: Some(vec![]), render: r.next() });
     }
-    LoopCase { stateless, tool_choice: ch.value, choice_spec: ch.spec, followup, prompt: format!("prompt {i}"), rounds }
+    LoopCase { stateless, tool_choice: ch.value, choice_spec: ch.spec, followup, prompt: format!("prompt {i}"), rounds, thread: i % 3 == 1 }
 }
 
 #[derive(Default, Debug)]
@@ -696,16 +719,38 @@ async fn drive_loop(c: &LoopCase, root: &Path) -> LoopObs {
         parallel_tool_calls: false,
     };
     let app = ripd::verif::build_app(data.clone(), ws.clone(), Some(cfg));
-    let sid = match http_call(&app, "POST", "/sessions", None).await {
-        Ok((_, b)) => serde_json::from_slice::<Value>(&b).ok().and_then(|v| v["session_id"].as_str().map(String::from)).unwrap_or_default(),
-        Err(e) => {
-            obs.errors.push(e);
-            return obs;
-        }
+    let field = |r: Result<(u16, Vec<u8>), String>, k: &str| -> Result<String, String> {
+        let (st, b) = r?;
+        serde_json::from_slice::<Value>(&b).ok().and_then(|v| v[k].as_str().map(String::from)).ok_or_else(|| format!("no {k} in answer (status {st}): {}", String::from_utf8_lossy(&b)))
     };
-    if let Err(e) = http_call(&app, "POST", &format!("/sessions/{sid}/input"), Some(json!({"input": c.prompt}))).await {
-        obs.errors.push(e);
-    }
+    let sid = if c.thread {
+        let tid = match field(http_call(&app, "POST", "/threads/ensure", None).await, "thread_id") {
+            Ok(t) => t,
+            Err(e) => {
+                obs.errors.push(e);
+                return obs;
+            }
+        };
+        match field(http_call(&app, "POST", &format!("/threads/{tid}/messages"), Some(json!({"content": c.prompt}))).await, "session_id") {
+            Ok(s) => s,
+            Err(e) => {
+                obs.errors.push(e);
+                return obs;
+            }
+        }
+    } else {
+        let sid = match field(http_call(&app, "POST", "/sessions", None).await, "session_id") {
+            Ok(s) => s,
+            Err(e) => {
+                obs.errors.push(e);
+                return obs;
+            }
+        };
+        if let Err(e) = http_call(&app, "POST", &format!("/sessions/{sid}/input"), Some(json!({"input": c.prompt}))).await {
+            obs.errors.push(e);
+        }
+        sid
+    };
     match sse_frames(&app, &format!("/sessions/{sid}/events"), 300).await {
         Ok(f) => obs.frames = f,
         Err(e) => obs.errors.push(e),
@@ -915,15 +960,17 @@ fn encode_loop(o: &LoopObs) -> Result<LoopEnc, String> {
 fn coq_loop_case(c: &LoopCase, e: &LoopEnc) -> String {
     let rounds = coq_list(&c.rounds, |rd| format!("{{| r_fail := {}; r_events := {} |}}", coq_bool(rd.mode != 0), coq_list(&rd.events, coq_json)));
     format!(
-        "CLoop {{| g_stateless := {}; g_choice := {}; g_followup := {}; g_fixed := true |}} {} None {} {} {} {}",
+        "CLoop {{| g_stateless := {}; g_choice := {}; g_followup := {}; g_fixed := true |}} {} {} {} {} {} {}",
         coq_bool(c.stateless),
         coq_json(&c.tool_choice),
         coq_opt(&c.followup, |s| coq_str(s)),
         coq_str(&c.prompt),
+        // a fresh thread with one message compiles to that message
+        if c.thread { format!("(Some [IMsg {} {}])", coq_str("user"), coq_str(&c.prompt)) } else { "None".to_string() },
         rounds,
         coq_list(&e.outs, |s| coq_str(s)),
         coq_list(&e.valids, |b| coq_bool(*b).to_string()),
-        coq_list_n(&e.obs)
+        coq_list_n_chunked(&e.obs)
     )
 }
 
@@ -1066,6 +1113,7 @@ fn corpus_loops() -> Vec<LoopCase> {
             choice_spec: Some(None),
             followup: Some("continue".into()),
             prompt: if stateless { "s16".into() } else { "s16_stateful".into() },
+            thread: stateless,
             rounds: vec![
                 RoundSpec { mode: 0, events: vec![json!({"type":"response.created","response":{"id":"resp_1"}}), call(0, "fc_1", "call_1", "write", &w("t1"))], done: true, expected: Some(vec![ExpCall { oi: 0, call_id: "call_1".into(), name: "write".into(), args: w("t1") }]), render: 1 },
                 RoundSpec { mode: 0, events: vec![json!({"type":"response.created","response":{"id":"resp_2"}}), call(0, "fc_2", "call_2", "write", &w("t2"))], done: true, expected: Some(vec![ExpCall { oi: 0, call_id: "call_2".into(), name: "write".into(), args: w("t2") }]), render: 2 },
@@ -1080,6 +1128,7 @@ fn corpus_loops() -> Vec<LoopCase> {
         choice_spec: Some(None),
         followup: None,
         prompt: "s19".into(),
+        thread: false,
         rounds: vec![
             RoundSpec { mode: 0, events: vec![json!({"type":"response.created","response":{"id":"resp_1"}}), call(0, "fc_1", "call_1", "write", &w("t1")), call(0, "fc_1", "call_1", "write", &w("t1"))], done: true, expected: Some(vec![ExpCall { oi: 0, call_id: "call_1".into(), name: "write".into(), args: w("t1") }]), render: 1 },
             end.clone(),
@@ -1092,6 +1141,7 @@ fn corpus_loops() -> Vec<LoopCase> {
         choice_spec: Some(None),
         followup: None,
         prompt: "s19b".into(),
+        thread: false,
         rounds: vec![
             RoundSpec { mode: 0, events: vec![call(1, "fc_1", "call_1", "write", &w("t1")), call(0, "fc_2", "call_1", "write", &w("t2"))], done: false, expected: None, render: 1 },
             end.clone(),
@@ -1104,9 +1154,10 @@ fn corpus_loops() -> Vec<LoopCase> {
         choice_spec: Some(Some(BTreeSet::new())),
         followup: None,
         prompt: "barred".into(),
+        thread: false,
         rounds: vec![RoundSpec { mode: 0, events: vec![json!({"type":"response.created","response":{"id":"resp_1"}}), call(0, "fc_1", "call_1", "write", &w("t1"))], done: true, expected: Some(vec![ExpCall { oi: 0, call_id: "call_1".into(), name: "write".into(), args: w("t1") }]), render: 1 }, end.clone()],
     });
-    v.push(LoopCase { stateless: false, tool_choice: json!({"type":"function"}), choice_spec: None, followup: None, prompt: "malformed".into(), rounds: vec![end.clone()] });
+    v.push(LoopCase { stateless: false, tool_choice: json!({"type":"function"}), choice_spec: None, followup: None, prompt: "malformed".into(), rounds: vec![end.clone()], thread: false });
     let many: Vec<Value> = std::iter::once(json!({"type":"response.created","response":{"id":"resp_1"}})).chain((0..20).map(|j| call(j, &format!("fc_{j}"), &format!("call_{j}"), "write", &w(&format!("t{j}"))))).collect();
     let many2: Vec<Value> = std::iter::once(json!({"type":"response.created","response":{"id":"resp_2"}})).chain((20..40).map(|j| call(j, &format!("fc_{j}"), &format!("call_{j}"), "write", &w(&format!("t{j}"))))).collect();
     v.push(LoopCase {
@@ -1115,6 +1166,7 @@ fn corpus_loops() -> Vec<LoopCase> {
         choice_spec: Some(None),
         followup: None,
         prompt: "bound".into(),
+        thread: false,
         rounds: vec![RoundSpec { mode: 0, events: many, done: true, expected: None, render: 5 }, RoundSpec { mode: 0, events: many2, done: true, expected: None, render: 6 }, end.clone()],
     });
     v
@@ -1131,7 +1183,7 @@ fn main() {
     std::env::remove_var("RIP_CONFIG_HOME");
     let (n_collect, n_enforce, n_loop) = match a.tier.as_str() {
         "thorough" => (6000, 3000, 2500),
-        _ => (500, 250, 160),
+        _ => (500, 250, 200),
     };
     let mut r = Rng::new(a.seed);
     let mut w = CaseWriter::new(&a.out, "Model.ToolLoop", "check_case", "model_obs", 60);
@@ -1334,6 +1386,12 @@ fn main() {
             }
         };
         res.bump(&format!("loop-reason={}", e.reason));
+        if e.reason == "invalid_request" {
+            res.bump(&format!("loop-refused-at-request={}", o.bodies.len().min(3)));
+        }
+        if c.thread {
+            res.bump("loop-thread-run");
+        }
         res.bump(&format!("loop-mode={}", if c.stateless { "stateless" } else { "stateful" }));
         res.bump(&format!("loop-requests={}", match o.bodies.len() { 0 => "0", 1 => "1", 2 => "2", 3..=4 => "3-4", _ => "5+" }));
         res.bump_by("loop-tool-calls", e.done.iter().map(|d| d.len() as u64).sum());
